@@ -48,6 +48,8 @@ type tcase struct {
 	Vers  []string `json:"vers"`  // T0, T1, ... (complete file sources)
 	Kinds []string `json:"kinds"` // Kinds[i] = canonical kind of the edit Vers[i-1] -> Vers[i]
 
+	WatchRounds []watchRound `json:"watch_rounds,omitempty"` // replay of the watch-mode CLI scenario instead
+
 	alive  bool
 	cls    []class
 	failed map[int]bool // steps whose own single-edit window was reported
@@ -293,7 +295,7 @@ func (b *batch) run() {
 		var burstSet []string
 		if k > 0 {
 			for _, tc := range active {
-				if tc.Group == "random" && len(burstSet) < 40 {
+				if tc.Group == "random" && len(burstSet) < 20 {
 					burstSet = append(burstSet, tc.Name)
 				}
 			}
@@ -676,7 +678,7 @@ func parses(src string) bool {
 
 // Run is the C16 check.
 func Run(c *core.Ctx) {
-	c.Rule = "case = one .templ file followed through versions T0..Tn (n<=4) by the real FSEventHandler(devMode) in-process; per version: dev-mode bytes == normal bytes of the binary built from it (clause 1, x 6 argument vectors); per window of edits all classified GoUpdated=false: old binary + new text file == fresh build (clause 2). Groups: matrix = every ordered pair of 12 expression positions x 5 expression types whose T compiles, + 13 control-flow structure witnesses; hostile = static text classes x positions; random = seeded programs + edit catalogue. non-trivial = (T,T') windows classified 'no recompilation', distinct by source hash"
+	c.Rule = "case = one .templ file followed through versions T0..Tn (n<=4) by the real FSEventHandler(devMode) in-process; per version: dev-mode bytes == normal bytes of the binary built from it (clause 1, x 6 argument vectors); per window of edits all classified GoUpdated=false: old binary + new text file == fresh build (clause 2). Additionally: (a) large literals: programs whose merged static text between two expressions is 80 KB / 300 KB (base64 image, svg path, script blob) in clause 1; (b) burst: old binaries render a subset back-to-back in a loop while the edit is handled and the text file is published, verdict = last of 5 passes right after (no pause introduced) must equal the fresh build; (c) watch CLI: real `templ generate -watch -cmd` subprocess, rounds of (Go-changing save, text-only save a few ms later), decided from debug-log order: a logged update of the Go-changing file must be followed by 'Executing command' before the round's final reload. Groups: matrix = every ordered pair of 12 expression positions x 5 expression types whose T compiles, + 13 control-flow structure witnesses; hostile = static text classes x positions; random = seeded programs + edit catalogue. non-trivial = (T,T') windows classified 'no recompilation', distinct by source hash"
 	c.Assume("text-file and template mtimes are set explicitly to strictly increasing instants in 2001, so the runtime's 'modified <100ms ago' cache shortcut never applies; behaviour inside that 100ms window is not examined")
 	c.Assume("rendered bytes and the presence of a render error are compared, not error messages (they carry source positions)")
 	txtRoot := corpus.Scratch("c16txt")
@@ -685,6 +687,11 @@ func Run(c *core.Ctx) {
 	if c.ReplayFile != "" {
 		var tc tcase
 		c.LoadReplay(&tc)
+		if len(tc.WatchRounds) > 0 {
+			watchScenario(c, tc.WatchRounds)
+			c.NontrivialN(1)
+			return
+		}
 		b := &batch{c: c, cases: []*tcase{&tc}, txtRoot: txtRoot, matrixFailed: map[string]bool{}}
 		if tc.Group != "matrix" { // key by kind as in the original run when the kind is a matrix kind
 			for _, k := range tc.Kinds {
@@ -696,6 +703,9 @@ func Run(c *core.Ctx) {
 		c.NontrivialN(1)
 		return
 	}
+
+	// ---- the watch-mode CLI itself: debounce batches and the rebuild decision
+	watchScenario(c, watchRounds(c.Rand("watch"), c.Pick(10, 40)))
 
 	matrixFailed := map[string]bool{}
 	nBatches := c.Pick(1, 30)
